@@ -317,6 +317,20 @@ pub fn run(tier: &str) -> i32 {
         all.merge(acc);
     }
 
+    // ---- time constructors: leap seconds that did occur (RFC 3339 section 5.8 gives the first two as examples of
+    //      valid date-times), in UTC and in local offsets
+    {
+        let mut acc = Acc::default();
+        for s in [
+            "1990-12-31T23:59:60Z", "1990-12-31T15:59:60-08:00", "2016-12-31T23:59:60Z", "2017-01-01T08:59:60+09:00", "2015-06-30T23:59:60Z", "2015-07-01T05:29:60+05:30",
+            "2016-12-31T23:59:60.5Z", "2016-12-31T18:59:60.123456789-05:00", "1972-06-30T23:59:60+00:00",
+        ] {
+            check_time_string(s, Some(true), &mut acc);
+            acc.choice_points += 1;
+        }
+        all.merge(acc);
+    }
+
     // ---- time constructors: the strict rendering grid
     let dates: [(i64, i64, i64); 8] = [(1971, 1, 1), (2000, 2, 29), (2024, 2, 29), (2026, 6, 15), (2029, 12, 31), (9000, 6, 15), (1, 1, 1), (9999, 12, 31)];
     let times = ["00:00:00", "00:00:01", "12:34:56", "19:08:07", "23:59:59"];
